@@ -26,7 +26,7 @@ Import ListNotations.
 From HV Require Import lib.Harness model.Validity model.Builder spec.BuilderS proofs.BuilderP proofs.BuilderExtP
   spec.BuilderWFS proofs.BuilderFrameP proofs.BuilderRulesP proofs.BuilderTypeP
   proofs.BuilderAcyclicP proofs.BuilderNonLocalP proofs.BuilderInputsP proofs.BuilderLinearP proofs.BuilderCopyP
-  model.Builder2 proofs.Builder2EmbP.
+  model.Builder2 proofs.Builder2EmbP spec.Builder2WFS proofs.Builder2P.
 
 (* Proved for ALL programs of the modelled language, with no well-formedness premise: whenever the
    builder calls do not raise, the serialised document satisfies
@@ -195,3 +195,37 @@ Theorem C01_builder2_valid_embedded : forall tys p g,
   valid {| v_tys := tys; v_main := g; v_subs := [] |} = true.
 Proof. exact run2_emb_valid. Qed.
 Print Assumptions C01_builder2_valid_embedded.
+
+(* Third pass.  The structural rules for ALL programs of the EXTENDED language (mutual induction over statements,
+   regions, statement lists, case lists and separately built programs; no depth bound): whenever the builder calls
+   do not raise, the serialised document satisfies
+     r_index        : node 0 is the root, every other parent is an earlier node, edge endpoints exist
+                      (insert_hugr re-indexes the inserted nodes and links consistently);
+     r_child_tags   : only permitted parent/child pairs (Case only under Conditional, Conditional / TailLoop / DFG
+                      under dataflow parents, the root of an inserted program under the inserting container);
+     r_first_second : Input first and Output second in every DFG / Case / TailLoop, no other Input/Output, and every
+                      Conditional has at least one Case (a Conditional over an empty sum never completes: the model,
+                      like hugr-py, fails at serialisation).
+   Premise croot_ok (spec/Builder2WFS.v, computed from the program text): no constant is placed at the root of a
+   Hugr that is rooted in a Conditional.  For rules 3-17 see below: proved for the embedded language only, monitored
+   for the rest of the extended language. *)
+Theorem C01_builder2_structural : forall tys p g,
+  croot_ok p = true -> run2 tys p = Ok g ->
+  r_index g = true /\ r_child_tags g = true /\ r_first_second g = true.
+Proof. exact run2_structural. Qed.
+Print Assumptions C01_builder2_structural.
+
+(* the premise is needed: hugr-py puts a constant under a Conditional root when asked to *)
+Theorem C01_const_under_conditional_refuted : croot_ok ex_croot = false /\
+  exists g, run2 ex_croot_tys ex_croot = Ok g /\ r_child_tags g = false.
+Proof. exact ex_croot_refuted. Qed.
+Print Assumptions C01_const_under_conditional_refuted.
+
+(* non-vacuity for the extended language: a program with a tail loop, a conditional whose cases are built in the
+   order 1, 0, and an inserted Dfg runs in the model; the whole `valid` accepts its document (19 nodes) *)
+Theorem C01_builder2_example : croot_ok ex4_prog = true /\ exists g, run2 ex4_tys ex4_prog = Ok g /\
+  valid {| v_tys := ex4_tys; v_main := g; v_subs := [] |} = true /\ length (g_nodes g) = 19%nat /\
+  existsb (fun n => match n_op n with TailLoop _ _ _ _ => true | _ => false end) (g_nodes g) = true /\
+  existsb (fun n => match n_op n with Conditional _ _ _ _ => true | _ => false end) (g_nodes g) = true.
+Proof. exact ex4_runs. Qed.
+Print Assumptions C01_builder2_example.
